@@ -106,7 +106,7 @@ func c15rptProfile(from string, rp *c15Rpt) *profile.Profile {
 func c15rptInProcess(from, to string, rp *c15Rpt) (out string, panicked string, err error) {
 	p := c15rptProfile(from, rp)
 	units, _ := p.NumLabelUnits()
-	format := map[string]int{"tags": report.Tags, "traces": report.Traces, "top": report.Text, "tree": report.Tree, "peek": report.Tree, "dot": report.Dot, "topproto": report.TopProto}[rp.Mode]
+	format := map[string]int{"tags": report.Tags, "traces": report.Traces, "top": report.Text, "tree": report.Tree, "peek": report.Tree, "dot": report.Dot, "topproto": report.TopProto, "callgrind": report.Callgrind}[rp.Mode]
 	var sym *regexp.Regexp
 	if rp.Mode == "peek" {
 		sym = regexp.MustCompile("fn000")
@@ -151,6 +151,16 @@ func c15rptCLI(pprof, dir string, id int, from, to string, rp *c15Rpt) (string, 
 		args = append(args, "-top", "-tagroot="+rp.RootKey)
 	case "peek":
 		args = append(args, "-peek=fn000")
+	case "callgrind":
+		cg := filepath.Join(dir, fmt.Sprintf("r%d.callgrind", id))
+		args = append(args, "-callgrind", "-output="+cg)
+		cmd := exec.Command(pprof, append(args, fn)...)
+		cmd.Env = append(os.Environ(), "PPROF_TMPDIR="+dir, "HOME="+dir)
+		if o, err := cmd.CombinedOutput(); err != nil {
+			return string(o), err
+		}
+		b, err := os.ReadFile(cg)
+		return string(b), err
 	default:
 		args = append(args, "-"+rp.Mode)
 	}
@@ -1028,7 +1038,7 @@ func (x *c15rptCtx) evalTop(out string, kind string, rootKey string) {
 	if x.to == "minimum" && rootKey == "" && x.rp.NodeFraction == 0 && !x.failed && c15modelDomain(x.from) {
 		if mu, ok := x.modelUnit(sum, abssum, false); ok {
 			x.st.c.Res.ModelCompared++
-			if !x.consistentWith(leaf, sum, abssum, out, mu) {
+			if !x.consistentWith(leaf, sum, abssum, out, mu) && !x.stepAmbiguous(U) {
 				x.failed = true
 				x.st.c.Disagree("C15/model-report/"+x.rp.Mode+"/minimum/output-unit", fmt.Sprintf("%s: the labels are not in the unit %q the model of selectOutputUnit chooses:\n%s", x.cs.Text, mu, c15trunc(out)), "theorems selectOutputUnit_sign_invariant, selectOutputUnit_keeps_smallest_visible / correspondence Measure.selectOutputUnit ~ Report.selectOutputUnit", x.cs)
 			}
@@ -1161,6 +1171,157 @@ func (x *c15rptCtx) evalNodelets(out, U string) {
 	}
 }
 
+var (
+	c15cgEvents = regexp.MustCompile(`^events: \S*?\((.*)\)\s*$`)
+	c15cgName   = regexp.MustCompile(`^(c?fn)=\((\d+)\)(?: (\S+))?`)
+	c15cgSelf   = regexp.MustCompile(`^\S+ \d+ (-?\d+)$`)
+	c15cgIncl   = regexp.MustCompile(`^\* \* (-?\d+)$`)
+)
+
+// c15parseCallgrind: the unit of the events line, the self cost per function and the inclusive cost
+// of each call (by callee).
+func c15parseCallgrind(out string) (unit string, self, calls map[string]string, ok bool) {
+	self, calls = map[string]string{}, map[string]string{}
+	names := map[string]string{}
+	cur, callee := "", ""
+	for _, ln := range strings.Split(out, "\n") {
+		if m := c15cgEvents.FindStringSubmatch(ln); m != nil {
+			unit, ok = m[1], true
+			continue
+		}
+		if m := c15cgName.FindStringSubmatch(ln); m != nil {
+			if m[3] != "" {
+				names[m[2]] = m[3]
+			}
+			if m[1] == "fn" {
+				cur, callee = names[m[2]], ""
+			} else {
+				callee = names[m[2]]
+			}
+			continue
+		}
+		if m := c15cgIncl.FindStringSubmatch(ln); m != nil && callee != "" {
+			calls[callee] = m[1]
+			callee = ""
+			continue
+		}
+		if m := c15cgSelf.FindStringSubmatch(ln); m != nil && cur != "" && !strings.HasPrefix(ln, "calls=") {
+			if _, dup := self[cur]; !dup {
+				self[cur] = m[1]
+			}
+		}
+	}
+	return unit, self, calls, ok
+}
+
+// evalCallgrind: callgrind costs are whole numbers of the output unit named in the events line:
+// every self cost and every inclusive call cost is the sample value converted EXACTLY and truncated
+// (int64(Scale(v, sample unit, output unit))) — bit-exact where the arithmetic is exact, within
+// one unit otherwise.  -divide_by does not apply to callgrind costs.
+func (x *c15rptCtx) evalCallgrind(out string) {
+	U, self, calls, ok := c15parseCallgrind(out)
+	if !ok {
+		x.viol("C15/report/callgrind/no-events-line", "no 'events:' line in:\n"+c15trunc(out))
+		return
+	}
+	rf, ru := x.st.recognise(x.from), x.st.recognise(U)
+	sum, abssum := x.totals()
+	if x.to == "minimum" && rf.known && !(ru.known && ru.fam == rf.fam) {
+		x.viol("C15/report/callgrind/unit", fmt.Sprintf("events unit %q is not a unit of the family of the sample unit %q", U, x.from))
+		return
+	}
+	if rf.known && !(ru.known && ru.fam == rf.fam) {
+		x.st.c.Res.Hit("rpt:callgrind-foreign-target-skipped")
+		return
+	}
+	check := func(site, name, got string, v int64) {
+		g, err := strconv.ParseInt(got, 10, 64)
+		if err != nil {
+			x.viol("C15/report/callgrind/"+site+"-missing", fmt.Sprintf("no %s cost line for %s in:\n%s", site, name, c15trunc(out)))
+			return
+		}
+		want := new(big.Rat).SetInt64(v)
+		exact := true
+		if rf.known {
+			want.Mul(want, new(big.Rat).Quo(rf.f, ru.f))
+			fam := &x.st.spec[rf.fam]
+			exact = c15exactRegime(fam, v, rf.f)
+		}
+		if c15abs(want).Cmp(new(big.Rat).SetInt(new(big.Int).Lsh(big.NewInt(1), 62))) >= 0 {
+			return
+		}
+		t := new(big.Int).Quo(want.Num(), want.Denom()) // truncation toward zero
+		okc := t.IsInt64() && t.Int64() == g
+		if !okc && !exact {
+			// inexact float arithmetic: one unit either way
+			d := c15abs(new(big.Rat).Sub(new(big.Rat).SetInt64(g), want))
+			okc = d.Cmp(new(big.Rat).Add(big.NewRat(1, 1), new(big.Rat).Mul(c15abs(want), c15tol))) <= 0
+		}
+		if !okc {
+			wf, _ := want.Float64()
+			x.viol("C15/report/callgrind/"+site, fmt.Sprintf("%s cost of %s: %d %q is written as %d %q; the exact conversion is %v, truncated %s", site, name, v, x.from, g, U, wf, t.String()))
+			return
+		}
+		// model: trunc of Measure.scale
+		if !x.failed && exact && c15modelDomain(x.from, U) {
+			rep := x.st.c.Drv.Ask(fmt.Sprintf("c15.scale %d %s %s", v, c15tok(x.from), c15tok(U)))
+			tk := &c15tr{toks: strings.Fields(rep)}
+			mr, okq := tk.rat()
+			x.st.c.Res.ModelCompared++
+			if tk.bad || !okq || new(big.Int).Quo(mr.Num(), mr.Denom()).Cmp(big.NewInt(g)) != 0 {
+				x.failed = true
+				x.st.c.Disagree("C15/model-report/callgrind/"+site, fmt.Sprintf("%s: %s cost of %s is %d %q, model scale %s", x.cs.Text, site, name, g, U, c15trunc(rep)), "theorem scale_same_family_exact / correspondence trunc(Measure.scale) ~ callgrind cost lines", x.cs)
+			}
+		}
+	}
+	for i, s := range x.rp.Samples {
+		n := fmt.Sprintf("fn%03d", i)
+		x.st.c.Res.Hit("rpt:callgrind-cost")
+		check("self", n, self[n], s.Value)
+		if c, present := calls[n]; present { // (the root disappears from the graph when its signed sum is 0)
+			check("call", n, c, s.Value)
+		}
+	}
+	if x.to == "minimum" && !x.failed && c15modelDomain(x.from) {
+		if mu, ok := x.modelUnit(sum, abssum, true); ok && mu != U && !x.stepAmbiguous(U) {
+			x.failed = true
+			x.st.c.Disagree("C15/model-report/callgrind/minimum/output-unit", fmt.Sprintf("%s: events unit %q, the model of selectOutputUnit (callgrind) chooses %q", x.cs.Text, U, mu), "correspondence Measure.selectOutputUnit ~ Report.selectOutputUnit", x.cs)
+		}
+	}
+}
+
+// stepAmbiguous: in a family whose factors are not exact float64 values (GCU) the float comparison
+// "value/factor >= 1" can go either way exactly at a unit step; U is then accepted when it is an
+// admissible automatic unit, within that tolerance, for the smallest magnitude (or 100 times it).
+func (x *c15rptCtx) stepAmbiguous(U string) bool {
+	rf := x.st.recognise(x.from)
+	if !rf.known || x.st.spec[rf.fam].integer {
+		return false
+	}
+	fam := &x.st.spec[rf.fam]
+	sum, _ := x.totals()
+	minMag := int64(0)
+	for _, v := range append([]int64{sum}, func() []int64 {
+		var vs []int64
+		for _, s := range x.rp.Samples {
+			vs = append(vs, s.Value)
+		}
+		return vs
+	}()...) {
+		if a := max(v, -v); a != 0 && (minMag == 0 || a < minMag) {
+			minMag = a
+		}
+	}
+	for _, m := range []int64{minMag, 100 * minMag} {
+		M := c15abs(new(big.Rat).Mul(new(big.Rat).SetInt64(m), rf.f))
+		if _, ok := x.st.acceptableAutoM(fam, M, false)[U]; ok {
+			x.st.c.Res.Hit("rpt:selectunit-step-ambiguous")
+			return true
+		}
+	}
+	return false
+}
+
 // modelUnit asks the model of selectOutputUnit for the graph of this profile: one leaf node per
 // sample (flat = cum = value) and the root (flat 0, cum Σ values).
 func (x *c15rptCtx) modelUnit(sum, abssum int64, callgrind bool) (string, bool) {
@@ -1290,6 +1451,20 @@ func c15quantities(out, mode string) map[string]string {
 				key = ""
 			} else if m := c15tagRow.FindStringSubmatch(ln); m != nil && key != "" {
 				q["tagrow~:"+key+":"+m[3]] = m[1]
+			}
+		}
+	case "callgrind":
+		if u, self, calls, ok := c15parseCallgrind(out); ok {
+			q["unit"] = u
+			for n, v := range self {
+				if strings.HasPrefix(n, "fn") {
+					q["flat:"+n] = v
+				}
+			}
+			for n, v := range calls {
+				if strings.HasPrefix(n, "fn") {
+					q["edge:"+n] = v
+				}
 			}
 		}
 	case "topproto":
@@ -1459,7 +1634,7 @@ func (x *c15rptCtx) evalTopProto(out string) {
 		check("cum", rc, sum)
 	}
 	if x.to == "minimum" && x.rp.NodeFraction == 0 && !x.failed && c15modelDomain(x.from) {
-		if mu, ok := x.modelUnit(sum, abssum, false); ok && mu != U {
+		if mu, ok := x.modelUnit(sum, abssum, false); ok && mu != U && !x.stepAmbiguous(U) {
 			x.failed = true
 			x.st.c.Disagree("C15/model-report/topproto/minimum/output-unit", fmt.Sprintf("%s: unit %q, the model of selectOutputUnit chooses %q", x.cs.Text, U, mu), "correspondence Measure.selectOutputUnit ~ Report.selectOutputUnit", x.cs)
 		}
@@ -1487,6 +1662,8 @@ func (st *c15State) rptEval(cs c15Case, out string) bool {
 		x.evalTop(out, "top", rp.RootKey)
 	case "topproto":
 		x.evalTopProto(out)
+	case "callgrind":
+		x.evalCallgrind(out)
 	}
 	if rp.Mode != "tagroot" {
 		x.signMetamorphic(out)
@@ -1497,7 +1674,7 @@ func (st *c15State) rptEval(cs c15Case, out string) bool {
 			fams[r.fam] = true
 		}
 	}
-	return len(fams) >= 2 || ((rp.Mode == "top" || rp.Mode == "tree" || rp.Mode == "peek" || rp.Mode == "dot" || rp.Mode == "topproto") && st.recognise(x.from).known)
+	return len(fams) >= 2 || ((rp.Mode == "top" || rp.Mode == "tree" || rp.Mode == "peek" || rp.Mode == "dot" || rp.Mode == "topproto" || rp.Mode == "callgrind") && st.recognise(x.from).known)
 }
 
 func c15rptText(cs c15Case) string {
@@ -1774,7 +1951,7 @@ func (st *c15State) reportStream(r *Rng) {
 	var jobs []cliJob
 	for k := 0; k < n; k++ {
 		from, to, rp := st.genRpt(r)
-		for _, mode := range []string{"tags", "traces", "top", "tree", "peek", "dot", "topproto"} {
+		for _, mode := range []string{"tags", "traces", "top", "tree", "peek", "dot", "topproto", "callgrind"} {
 			for _, rev := range []bool{false, true} {
 				q := *rp
 				q.Mode, q.Reverse = mode, rev
@@ -1796,7 +1973,7 @@ func (st *c15State) reportStream(r *Rng) {
 		}
 		// a share of the cases also through the real binary
 		if k%3 == 0 && c.Pprof != "" {
-			modes := []string{"tags", "roundtrip", "traces", "tree", "tagroot", "roundtrip", "peek", "dot", "top"}
+			modes := []string{"tags", "roundtrip", "traces", "callgrind", "tree", "tagroot", "roundtrip", "peek", "dot", "top", "callgrind"}
 			q := *rp
 			q.CLI, q.Mode, q.Reverse = true, modes[(k/3)%len(modes)], (k/3)%2 == 1
 			if q.Mode == "tagroot" {
@@ -1805,6 +1982,45 @@ func (st *c15State) reportStream(r *Rng) {
 			if q.Mode == "peek" {
 				q.NodeFraction = 0
 			}
+			jobs = append(jobs, cliJob{c15Case{Kind: "rpt", From: c15hex(from), To: c15hex(to), Rpt: &q}})
+		}
+	}
+	// exact multiples k·(to/from) of a larger unit, for every pair of units of a family: callgrind
+	// (integer costs), topproto and top must convert them exactly (3600000 ms is 1 hrs, not 0)
+	for k := 0; k < 120*c.Scale && k < 1200; k++ {
+		fam := st.spec[r.Intn(len(st.spec))]
+		if fam.def == "B" && r.Chance(80) {
+			fam = st.spec[(r.Intn(len(st.spec)-1)+1)%len(st.spec)] // binary byte ratios are exact in float64 anyway
+		}
+		a, b := fam.units[r.Intn(len(fam.units))], fam.units[r.Intn(len(fam.units))]
+		if a.f.Cmp(b.f) > 0 {
+			a, b = b, a
+		}
+		ratio := new(big.Rat).Quo(b.f, a.f)
+		if !ratio.IsInt() || !ratio.Num().IsInt64() || ratio.Num().Int64() > 1<<40 {
+			continue
+		}
+		rp := &c15Rpt{}
+		for i, n := 0, 2+r.Intn(5); i < n; i++ {
+			rp.Samples = append(rp.Samples, c15RptSample{Value: int64(1+r.Intn(64)) * ratio.Num().Int64()})
+		}
+		from := a.names[r.Intn(len(a.names))]
+		to := "minimum"
+		if r.Bool() {
+			to = b.names[r.Intn(len(b.names))]
+		}
+		for _, mode := range []string{"callgrind", "topproto", "top"} {
+			q := *rp
+			q.Mode = mode
+			cs := c15Case{Kind: "rpt", From: c15hex(from), To: c15hex(to), Rpt: &q}
+			nt := st.rptCase(cs)
+			c.Res.Count(c15canon(cs), nt)
+			c.Res.Hit("kind:rpt")
+			c.Res.Hit("rpt:exact-multiple:" + mode)
+		}
+		if k%8 == 0 && c.Pprof != "" {
+			q := *rp
+			q.CLI, q.Mode = true, "callgrind"
 			jobs = append(jobs, cliJob{c15Case{Kind: "rpt", From: c15hex(from), To: c15hex(to), Rpt: &q}})
 		}
 	}
